@@ -141,7 +141,7 @@ def f_rel_notEqual : Family :=
 
 /-! integer operators (`int32` with prefix `i`, `uint32` with prefix `u`): the built-in operator per component, for every
     vector/scalar operand combination; `+ * & | ^` are commutative (operands may be exchanged), the others literal -/
-def intKeys : List (List Nat) := opKeys [3, 1, 2] [1, 2, 3, 4]
+def intKeys : List (List Nat) := binKeys
 def mkIntOp (pre n : String) (kind : Kind) (op : E → E → E) : Family :=
   { name := pre ++ "op_" ++ n, kind := kind, keys := intKeys, nOut := k1, spec := fun k j => op (opnd (k0 k) (k1 k) 0 j) (opnd (k0 k) (k1 k) 1 j) }
 def f_iop_add : Family := mkIntOp "i" "add" .poly .add
@@ -160,12 +160,36 @@ def f_uop_or : Family := mkIntOp "u" "or" .syn .bor
 def f_uop_xor : Family := mkIntOp "u" "xor" .syn .bxor
 def f_uop_shl : Family := mkIntOp "u" "shl" .syn .shl
 def f_uop_shr : Family := mkIntOp "u" "shr" .syn .shr
+def mkIntAsg (pre n : String) (kind : Kind) (op : E → E → E) : Family :=
+  { name := pre ++ "asg_" ++ n, kind := kind, keys := asgKeys, nOut := k1,
+    spec := fun k j => op (opnd (k0 k ||| 1) (k1 k) 0 j) (opnd (k0 k ||| 1) (k1 k) 1 j) }
+def f_iop_mod : Family := mkIntOp "i" "mod" .syn .imod
+def f_iasg_add : Family := mkIntAsg "i" "add" .syn .add
+def f_iasg_sub : Family := mkIntAsg "i" "sub" .syn .sub
+def f_iasg_mul : Family := mkIntAsg "i" "mul" .syn .mul
+def f_iasg_and : Family := mkIntAsg "i" "and" .syn .band
+def f_iasg_or : Family := mkIntAsg "i" "or" .syn .bor
+def f_iasg_xor : Family := mkIntAsg "i" "xor" .syn .bxor
+def f_iasg_shl : Family := mkIntAsg "i" "shl" .syn .shl
+def f_iasg_shr : Family := mkIntAsg "i" "shr" .syn .shr
+def f_iasg_mod : Family := mkIntAsg "i" "mod" .syn .imod
+def f_uop_mod : Family := mkIntOp "u" "mod" .syn .imod
+def f_uasg_add : Family := mkIntAsg "u" "add" .syn .add
+def f_uasg_sub : Family := mkIntAsg "u" "sub" .syn .sub
+def f_uasg_mul : Family := mkIntAsg "u" "mul" .syn .mul
+def f_uasg_and : Family := mkIntAsg "u" "and" .syn .band
+def f_uasg_or : Family := mkIntAsg "u" "or" .syn .bor
+def f_uasg_xor : Family := mkIntAsg "u" "xor" .syn .bxor
+def f_uasg_shl : Family := mkIntAsg "u" "shl" .syn .shl
+def f_uasg_shr : Family := mkIntAsg "u" "shr" .syn .shr
+def f_uasg_mod : Family := mkIntAsg "u" "mod" .syn .imod
 def f_iop_neg : Family := { name := "iop_neg", kind := .syn, keys := lens, nOut := k0, spec := fun _ j => .neg (v j) }
 def f_iop_not : Family := { name := "iop_not", kind := .syn, keys := lens, nOut := k0, spec := fun _ j => .bnot (v j) }
 
 def families : List Family :=
   [f_op_add, f_op_sub, f_op_mul, f_op_div, f_asg_add, f_asg_sub, f_asg_mul, f_asg_div, f_op_neg, f_op_preinc, f_op_postdec,
    f_rel_lessThan, f_rel_lessThanEqual, f_rel_greaterThan, f_rel_greaterThanEqual, f_rel_equal, f_rel_notEqual,
-   f_iop_add, f_iop_sub, f_iop_mul, f_iop_and, f_iop_or, f_iop_xor, f_iop_shl, f_iop_shr, f_uop_add, f_uop_sub, f_uop_mul, f_uop_and, f_uop_or, f_uop_xor, f_uop_shl, f_uop_shr, f_iop_neg, f_iop_not]
+   f_iop_add, f_iop_sub, f_iop_mul, f_iop_and, f_iop_or, f_iop_xor, f_iop_shl, f_iop_shr, f_uop_add, f_uop_sub, f_uop_mul, f_uop_and, f_uop_or, f_uop_xor, f_uop_shl, f_uop_shr, f_iop_neg, f_iop_not,
+   f_iop_mod, f_iasg_add, f_iasg_sub, f_iasg_mul, f_iasg_and, f_iasg_or, f_iasg_xor, f_iasg_shl, f_iasg_shr, f_iasg_mod, f_uop_mod, f_uasg_add, f_uasg_sub, f_uasg_mul, f_uasg_and, f_uasg_or, f_uasg_xor, f_uasg_shl, f_uasg_shr, f_uasg_mod]
 
 end Glm.Spec.C01
